@@ -95,13 +95,14 @@ def run_case(c):
         cond.append(1.0 / (f1 + f2))
     T = caps["last"]
     nsteps = caps["n"]
-    stored = float(np.sum((Cap[:-1] * 120.0) * (T[:-1] - 20.0)))
+    m_ = len(T)                 # the solved system may cover fewer cells than the table (it must not: judged by the check)
+    stored = float(np.sum((Cap[:m_ - 1] * 120.0) * (T[:m_ - 1] - 20.0)))
     # the end of the computed period as the implementation reports it: the time its last (un-resampled) point is labelled with
     t_end = float(rn.t_s * math.exp(rn.lntts[-1]))
     out = {"ok": True, "t_end_reported": t_end, "t_s": float(rn.t_s), "n_cells": n, "nsteps": nsteps, "Rb": Rb, "Rf_half": Rf, "k_soil": c["k_soil"],
            "r_in": cells[P.R_IN].tolist(), "r_out": cells[P.R_OUT].tolist(), "r_center": cells[P.R_CENTER].tolist(),
            "k": cells[P.K].tolist(), "cap": Cap.tolist(), "cond": cond, "steps": caps["steps"],
-           "stored": stored, "injected": 120.0 * nsteps, "system_size": int(caps.get("size", 0)), "leaked": 120.0 * cond[-1] * caps.get("far_sum", 0.0),
+           "stored": stored, "injected": 120.0 * nsteps, "system_size": int(caps.get("size", 0)), "leaked": 120.0 * cond[min(m_, n) - 2] * caps.get("far_sum", 0.0),
            "T_last": T.tolist(), "T0_series": caps["all_T0"],
            "lntts": rn.lntts.tolist(), "g": rn.g.tolist(), "g_bhw": rn.g_bhw.tolist(),
            "fluid_mass": float(np.sum(Cap[:3] * 120.0)), "fluid_mass_expected": 2 * math.pi * rp_in ** 2 * fluid.rhoCp,
